@@ -273,3 +273,88 @@ Example C10_example_deep_guard :
     tn c = [("top", ["t-al"]); ("sub.my-task", ["sub.al-x"; "sub"]);
             ("sub.in-ner.deep", ["sub.in-ner"])].
 Proof. eexists. split; [vm_compute; reflexivity|]. split; vm_compute; reflexivity. Qed.
+
+(** * The listings, any depth (Proofs/C10_listing.v)
+
+    [tnt c] is the reference flattening of the tree with task identities: one
+    entry (primary dotted name, task, alias names) per binding of a task,
+    built by plain prefixing.  Forgetting the identities it is [tn c], the
+    list the parser registry is built from ([C10_listing_reference]); entry by
+    entry it is the specification's [flat_expected c]. *)
+From Coq Require Import Permutation.
+From InvokeVerif Require Import Proofs.C10_listing.
+
+Theorem C10_listing_reference_partial :
+  forall c, ns_wf c = true -> ns_canon c = true -> alias_table_own c = true ->
+  map (fun e => (le_name e, le_aliases e)) (tnt c) = tn c /\
+  Forall2 flat_agrees (tnt c) (flat_expected c).
+Proof. intros c H1 H2 H3. split; [apply tnt_tn | apply tnt_expected; assumption]. Qed.
+
+(** The flat listing of EVERY tree (any depth) without colliding bindings
+    ([ns_wf]) and with canonical binding keys ([ns_canon]) is, up to the order
+    of its lines, one line per entry of the reference: depth 0, the primary
+    dotted name, the task, and the entry's aliases up to order.
+    Missing: trees whose binding keys are not canonical (F-C10b's ground). *)
+Theorem C10_flat_listing_partial :
+  forall c, ns_wf c = true -> ns_canon c = true ->
+  exists rows', Permutation (flat_rows c []) rows' /\ Forall2 flat_line rows' (tnt c).
+Proof. exact flat_listing. Qed.
+
+(** Inside [deep_guard] (uniform auto-dash, no aliases given at binding time,
+    no default sub-collection below the root, type-consistent configurations,
+    distinct flattened names: the guard that excludes F-C10b/c/d): every
+    entry has its line and every line its entry; primary names are pairwise
+    distinct, and no name the listing displays (primary or alias) occurs
+    twice anywhere in it. *)
+Theorem C10_flat_listed_once_partial :
+  forall c, deep_guard c = true ->
+  Permutation (map r_name (flat_rows c [])) (map le_name (tnt c)) /\
+  NoDup (map le_name (tnt c)) /\
+  NoDup (flat_map row_names (flat_rows c [])) /\
+  (forall e, In e (tnt c) -> exists r, In r (flat_rows c []) /\ flat_line r e) /\
+  (forall r, In r (flat_rows c []) -> exists e, In e (tnt c) /\ flat_line r e).
+Proof. exact flat_listed_once. Qed.
+
+(** ... and every name a line displays -- its primary name and each alias --
+    is canonical, is accepted by the parser registry, runs the task the line
+    stands for, and [coll[name]] is that task (composition with
+    [C10_cli_iff_lookup_partial]). *)
+Theorem C10_flat_listed_accepted_partial :
+  forall c, deep_guard c = true ->
+  forall r, In r (flat_rows c []) -> forall m, In m (row_names r) ->
+    canonical (c_auto_dash c) m = true /\
+    accepted (model_nobs c m) = true /\
+    cli_run c m = Ok (r_task r) /\
+    exists t, getitem c m = Ok t /\ r_task r = Some (t_id t).
+Proof. exact flat_listed_accepted. Qed.
+
+(** The nested listing of every tree, read back exactly the way the
+    specification reads it ([nested_shown]: depth = scope, leading '.',
+    trailing '*' on the default task), shows, up to the order of lines, the
+    bindings of the tree ([rel_expected]): collection path, binding key, task,
+    the alias names.  [readable]: no task key ends in '*' and normalised
+    aliases are dot-free (otherwise the display itself is ambiguous). *)
+Theorem C10_nested_listing_partial :
+  forall c, ns_wf c = true -> ns_canon c = true -> readable c = true -> alias_table_own c = true ->
+  exists ents, Permutation (nested_shown (nested_rows c []) []) ents /\
+               Forall2 entry_agrees ents (rel_expected c).
+Proof. exact nested_listing_spec. Qed.
+
+(** Non-vacuity: the three-level tree of [C10_example_deep_guard] satisfies
+    all guards; its flat listing has the three lines of the reference. *)
+Example C10_example_listing :
+  exists c,
+    build (ISub None true (Node [("k", Node [("x", Leaf (VInt 0))])])
+                [ITask (mkTask 1 "top" ["t_al"] false) None [] None;
+                 ISub (Some "sub") true (Node [("k", Node [("y", Leaf (VInt 1))])])
+                      [ITask (mkTask 2 "my_task" ["al_x"] false) None [] (Some true);
+                       ISub (Some "in_ner") true (Node [])
+                            [ITask (mkTask 3 "deep" [] false) None [] (Some true)] None false]
+                      None true] None false) = Ok c /\
+    deep_guard c = true /\ readable c = true /\
+    tnt c = [("top", 1, ["t-al"]); ("sub.my-task", 2, ["sub.al-x"; "sub"]);
+             ("sub.in-ner.deep", 3, ["sub.in-ner"])] /\
+    flat_rows c [] = [(0, "top", ["t-al"], Some 1);
+                      (0, "sub.my-task", ["sub"; "sub.al-x"], Some 2);
+                      (0, "sub.in-ner.deep", ["sub.in-ner"], Some 3)].
+Proof. eexists. split; [vm_compute; reflexivity|]. repeat split; vm_compute; reflexivity. Qed.
